@@ -102,6 +102,10 @@ pub fn run(args: &Args) {
         step(&mut emu);
         finish_frame(&mut emu);
         let mut startcolor = emu.border_color() as u8;
+        // the byte of the last port write, and whether a snapshot was loaded since: the first write after a load often
+        // repeats the very byte written before it (a loader that sets the same border again)
+        let mut last_byte: Option<u8> = None;
+        let mut loaded_since = false;
         for f in 0..frames {
             // some frames start from a freshly loaded snapshot with its own border
             if f % 13 == 12 {
@@ -121,6 +125,7 @@ pub fn run(args: &Args) {
                 emu.load_snapshot(Snapshot::Sna(VAsset::new(bytes))).unwrap();
                 out.ev(json!({"ev":"snapshot","border":b}));
                 startcolor = b;
+                loaded_since = true;
             }
             // plan of writes for this frame (ascending times, at least 13 T apart)
             let kind = r.below(8);
@@ -160,7 +165,12 @@ pub fn run(args: &Args) {
                     continue;
                 }
                 emu.verif_wait(t - emu.verif_frame_clocks());
-                let c = r.u8();
+                let c = match last_byte {
+                    Some(v) if loaded_since && r.chance(2, 3) => v,
+                    _ => r.u8(),
+                };
+                loaded_since = false;
+                last_byte = Some(c);
                 // "the ULA port" is every even address (the ULA decodes A0 only): mostly xxFE, and any other even port,
                 // including the ones that select the 128K paging latch or the AY as well (the written value then also
                 // pages memory - the program lives in bank 2 with interrupts off - or programs the AY)
@@ -218,6 +228,7 @@ pub fn run(args: &Args) {
                         emu.load_snapshot(Snapshot::Szx(VAsset::new(szx(&d, &SzxOpts::default())))).unwrap();
                     }
                     midload = b as i32;
+                    loaded_since = true;
                 }
             }
             finish_frame(&mut emu);
